@@ -42,7 +42,7 @@ ASSUMPTIONS = ['near-limit family (compiled typeof only, ~1200 opcodes): Runtime
                'allowed for cdef()/typeof() in-line: CDefError, FFIError, NotImplementedError, VerificationError, VerificationMissing',
                'allowed for compiled typeof(): ffi.error, TypeError, ValueError']
 BUDGET = {'quick': 4800, 'thorough': 400000}
-TIME = {'quick': 25, 'thorough': 1200}
+TIME = {'quick': 25, 'thorough': 900}
 MAX_SHARDS = 12
 PRE_IN_PARENT = True      # pre() only launches the fuzzing campaigns, post() collects them
 CRASHY = True
